@@ -20,7 +20,7 @@ theorem lookup_mem {α β} [BEq α] [LawfulBEq α] : ∀ (l : List (α × β)) (
 
 /-- what the matcher proper establishes on OR-free patterns -/
 theorem matcher_core (E : Env) (root : NodeId) (rm : Bool)
-    (hno : E.p.noOr = true) (htopo : E.p.topo) (har : E.fixF1 = true ∨ OutputArityOk E.p E.g)
+    (hno : E.p.dispOk = true) (htopo : E.p.topoDeep) (har : E.fixF1 = true ∨ OutputArityOk E.p E.g)
     (hok : (matcherMatch E root rm).ok = true) :
     ∃ c' combo, (matcherMatch E root rm).bindings = c'.bindings ∧
       (matcherMatch E root rm).nb = c'.nb ∧ (matcherMatch E root rm).vb = c'.vb ∧
@@ -108,7 +108,7 @@ theorem patternMatch_some (E : Env) (root : NodeId) (rm : Bool) (r : Result)
           exact ⟨by simpa using hok, rfl, by simpa using hc, by simpa using hv, by simpa using hcond⟩
 
 theorem patternMatch_sound (E : Env) (root : NodeId) (rm : Bool) (r : Result)
-    (hno : E.p.noOr = true) (htopo : E.p.topo) (har : E.fixF1 = true ∨ OutputArityOk E.p E.g)
+    (hno : E.p.dispOk = true) (htopo : E.p.topoDeep) (har : E.fixF1 = true ∨ OutputArityOk E.p E.g)
     (h : patternMatch E root rm = some r) :
     Instance E root r.assign ∧ ChecksPass E.p r.assign ∧
       (rm = true → Removable E.g r.nodes r.outputs) := by
@@ -193,7 +193,7 @@ theorem outputValues_eq (p : GPat) (c : Partial) :
   congr
 
 theorem patternMatch_exact (E : Env) (root : NodeId) (rm : Bool) (r : Result)
-    (hno : E.p.noOr = true) (htopo : E.p.topo) (har : E.fixF1 = true ∨ OutputArityOk E.p E.g)
+    (hno : E.p.dispOk = true) (htopo : E.p.topoDeep) (har : E.fixF1 = true ∨ OutputArityOk E.p E.g)
     (h : patternMatch E root rm = some r) :
     E.p.outputs.mapM (r.assign.outputOf E.p) = some r.outputs ∧
       r.nodes = r.nb.map (·.2) ∧
@@ -275,22 +275,22 @@ theorem matcherMatch_first (E : Env) (root : NodeId) (rm : Bool)
 
 /-! ## commute -/
 
-theorem masks_cons (n : NPat) (ns : List NPat) :
-    masks (n :: ns) =
-      if n.isCommutative then (masks ns).map (false :: ·) ++ (masks ns).map (true :: ·)
-      else (masks ns).map (false :: ·) := by
+theorem masks_cons (fix7b : Bool) (n : NPat) (ns : List NPat) :
+    masks fix7b (n :: ns) =
+      if n.swappable fix7b then (masks fix7b ns).map (false :: ·) ++ (masks fix7b ns).map (true :: ·)
+      else (masks fix7b ns).map (false :: ·) := by
   rw [masks]
   unfold commuteNode
   split <;> simp
 
-theorem masks_length : ∀ ns : List NPat,
-    (masks ns).length = 2 ^ (ns.filter NPat.isCommutative).length := by
+theorem masks_length (fix7b : Bool) : ∀ ns : List NPat,
+    (masks fix7b ns).length = 2 ^ (ns.filter (NPat.swappable fix7b)).length := by
   intro ns
   induction ns with
   | nil => simp [masks]
   | cons n ns ih =>
     rw [masks_cons]
-    by_cases h : n.isCommutative = true
+    by_cases h : n.swappable fix7b = true
     · simp [h, ih, Nat.pow_succ]; omega
     · simp [h, ih]
 
@@ -299,7 +299,7 @@ theorem map_cons_nodup (b : Bool) (l : List (List Bool)) (h : l.Nodup) : (l.map 
   rw [List.pairwise_map]
   exact h.imp (fun hne he => hne (List.cons.inj he).2)
 
-theorem masks_nodup : ∀ ns : List NPat, (masks ns).Nodup := by
+theorem masks_nodup (fix7b : Bool) : ∀ ns : List NPat, (masks fix7b ns).Nodup := by
   intro ns
   induction ns with
   | nil => simp [masks]
@@ -314,9 +314,9 @@ theorem masks_nodup : ∀ ns : List NPat, (masks ns).Nodup := by
       cases he
     · exact map_cons_nodup _ _ ih
 
-theorem masks_mem : ∀ (ns : List NPat) (m : List Bool),
-    m ∈ masks ns ↔ m.length = ns.length ∧ ∀ (i : Nat) (b : Bool), m[i]? = some b → b = true →
-      ∃ n : NPat, ns[i]? = some n ∧ n.isCommutative = true := by
+theorem masks_mem (fix7b : Bool) : ∀ (ns : List NPat) (m : List Bool),
+    m ∈ masks fix7b ns ↔ m.length = ns.length ∧ ∀ (i : Nat) (b : Bool), m[i]? = some b → b = true →
+      ∃ n : NPat, ns[i]? = some n ∧ n.swappable fix7b = true := by
   intro ns
   induction ns with
   | nil =>
@@ -330,7 +330,7 @@ theorem masks_mem : ∀ (ns : List NPat) (m : List Bool),
     rw [masks_cons]
     constructor
     · intro hm
-      have key : ∃ b rest, m = b :: rest ∧ rest ∈ masks ns ∧ (b = true → n.isCommutative = true) := by
+      have key : ∃ b rest, m = b :: rest ∧ rest ∈ masks fix7b ns ∧ (b = true → n.swappable fix7b = true) := by
         split at hm
         · next hc =>
           rcases List.mem_append.1 hm with h | h
@@ -354,7 +354,7 @@ theorem masks_mem : ∀ (ns : List NPat) (m : List Bool),
       cases m with
       | nil => simp at hlen
       | cons b rest =>
-        have hrest : rest ∈ masks ns := by
+        have hrest : rest ∈ masks fix7b ns := by
           refine (ih rest).2 ⟨by simpa using hlen, fun i b' hi hb' => ?_⟩
           have := hall (i + 1) b' (by simpa using hi) hb'
           simpa using this
@@ -369,7 +369,7 @@ theorem masks_mem : ∀ (ns : List NPat) (m : List Bool),
           simp only [hc, if_true]
           exact List.mem_append_right _ (List.mem_map.2 ⟨rest, hrest, rfl⟩)
 
-theorem masks_head : ∀ ns : List NPat, ∃ tl, masks ns = List.replicate ns.length false :: tl := by
+theorem masks_head (fix7b : Bool) : ∀ ns : List NPat, ∃ tl, masks fix7b ns = List.replicate ns.length false :: tl := by
   intro ns
   induction ns with
   | nil => exact ⟨[], rfl⟩
@@ -377,7 +377,7 @@ theorem masks_head : ∀ ns : List NPat, ∃ tl, masks ns = List.replicate ns.le
     obtain ⟨tl, htl⟩ := ih
     rw [masks_cons, htl]
     split
-    · exact ⟨tl.map (false :: ·) ++ (masks ns).map (true :: ·), by simp [List.replicate_succ, htl]⟩
+    · exact ⟨tl.map (false :: ·) ++ (masks fix7b ns).map (true :: ·), by simp [List.replicate_succ, htl]⟩
     · exact ⟨tl.map (false :: ·), by simp [List.replicate_succ]⟩
 
 theorem exceptMapM_length {α β ε} (f : α → Except ε β) : ∀ (l : List α) (out : List β),
@@ -419,17 +419,17 @@ theorem copyGraph_noswap (fix7a : Bool) (p : GPat) (n : Nat) :
     | succ n ih => simp [List.replicate_succ, ih]
   simp [this]
 
-theorem commute_counts (fix7a : Bool) (p : GPat) (l : List GPat) (h : commute fix7a p = .ok l) :
-    l.length = 2 ^ (p.nodes.filter NPat.isCommutative).length ∧
-      (masks p.nodes).Nodup ∧
-      (∀ m, m ∈ masks p.nodes ↔
+theorem commute_counts (fix7a fix7b : Bool) (p : GPat) (l : List GPat) (h : commute fix7a p fix7b = .ok l) :
+    l.length = 2 ^ (p.nodes.filter (NPat.swappable fix7b)).length ∧
+      (masks fix7b p.nodes).Nodup ∧
+      (∀ m, m ∈ masks fix7b p.nodes ↔
         m.length = p.nodes.length ∧ ∀ (i : Nat) (b : Bool), m[i]? = some b → b = true →
-          ∃ n : NPat, p.nodes[i]? = some n ∧ n.isCommutative = true) ∧
+          ∃ n : NPat, p.nodes[i]? = some n ∧ n.swappable fix7b = true) ∧
       l.head? = some p := by
   unfold commute at h
   obtain ⟨hlen, hhead⟩ := exceptMapM_length _ _ _ h
-  refine ⟨by rw [hlen, masks_length], masks_nodup _, masks_mem _, ?_⟩
-  obtain ⟨tl, htl⟩ := masks_head p.nodes
+  refine ⟨by rw [hlen, masks_length], masks_nodup _ _, masks_mem _ _, ?_⟩
+  obtain ⟨tl, htl⟩ := masks_head fix7b p.nodes
   obtain ⟨b, hb, hh⟩ := hhead _ _ htl
   rw [copyGraph_noswap] at hb
   cases hb
@@ -571,12 +571,122 @@ theorem exceptMapM_mem {α β ε} (f : α → Except ε β) : ∀ (l : List α) 
         · obtain ⟨a', ha', hf'⟩ := ih bs hbs b hm
           exact ⟨a', List.mem_cons_of_mem _ ha', hf'⟩
 
-theorem commute_consts (fix7a : Bool) (p : GPat) (l : List GPat) (q : GPat)
-    (h : commute fix7a p = .ok l) (hq : q ∈ l) :
+theorem commute_consts (fix7a fix7b : Bool) (p : GPat) (l : List GPat) (q : GPat)
+    (h : commute fix7a p fix7b = .ok l) (hq : q ∈ l) :
     ∀ (i : Nat) (n n' : NPat), p.nodes[i]? = some n → q.nodes[i]? = some n' →
       ∀ c : ConstPat, c ∈ n'.consts ↔ c ∈ n.consts := by
   unfold commute at h
   obtain ⟨m, _, hm⟩ := exceptMapM_mem _ _ _ h q hq
   exact copyGraph_consts fix7a p q m hm
+
+/-! ## every variant is the pattern with the masked nodes' two inputs swapped -/
+
+mutual
+theorem cloneV_skel : ∀ (vp : VPat) (k : Nat), skel (cloneV vp k).1 = skel vp
+  | .var _ _ true _ _, _ => by simp [cloneV, skel]
+  | .var _ _ false _ _, _ => by simp [cloneV, skel]
+  | .any, _ => by simp [cloneV, skel]
+  | .const _ _, _ => by simp [cloneV, skel]
+  | .out _ _, _ => by simp [cloneV, skel]
+  | .orD _ _ _ _, _ => by simp [cloneV, skel]
+  | .orB _ _ _ _ alts, k => by
+    simp only [cloneV, skel]
+    rw [cloneL_skel alts (k + 1)]
+theorem cloneL_skel : ∀ (l : List VPat) (k : Nat), skelL (cloneL l k).1 = skelL l
+  | [], _ => by simp [cloneL, skelL]
+  | a :: rest, k => by
+    simp only [cloneL, skelL]
+    rw [cloneV_skel a k, cloneL_skel rest (cloneV a k).2]
+end
+
+theorem cloneInputs_skel : ∀ (ins : List (Option VPat)) (k : Nat),
+    skelInputs (cloneInputs ins k).1 = skelInputs ins
+  | [], _ => by simp [cloneInputs, skelInputs]
+  | none :: rest, k => by
+    have := cloneInputs_skel rest k
+    simp only [skelInputs] at this ⊢
+    simp [cloneInputs, this]
+  | some v :: rest, k => by
+    have := cloneInputs_skel rest (cloneV v k).2
+    simp only [skelInputs] at this ⊢
+    simp [cloneInputs, this, cloneV_skel v k]
+
+theorem cloneNode_skel (fix7a : Bool) (np np' : NPat) (b : Bool) (k k' : Nat)
+    (h : cloneNode fix7a np b k = .ok (np', k')) :
+    skelInputs np'.inputs = (if b then (skelInputs np.inputs).reverse else skelInputs np.inputs) ∧
+      (b = true → np.inputs.length = 2) ∧
+      np' = { np with inputs := np'.inputs, opIsStr := false } := by
+  unfold cloneNode at h
+  dsimp only at h
+  split at h
+  · cases h
+  · have hc := cloneInputs_skel np.inputs k
+    split at h
+    · next hb =>
+      split at h
+      · next x y hxy =>
+        cases h
+        have hlen : (cloneInputs np.inputs k).1.length = np.inputs.length := by
+          have := congrArg List.length hc
+          simpa [skelInputs] using this
+        refine ⟨?_, fun _ => by rw [← hlen, hxy]; rfl, rfl⟩
+        simp only [hb, if_true]
+        rw [← hc, hxy]
+        simp [skelInputs]
+      · cases h
+    · next hb =>
+      cases h
+      have hb' : b = false := by simpa using hb
+      subst hb'
+      exact ⟨by simpa using hc, (fun h => by cases h), rfl⟩
+
+theorem cloneNodes_skel (fix7a : Bool) : ∀ (ns : List NPat) (bs : List Bool) (k : Nat)
+    (l : List NPat) (k' : Nat), cloneNodes fix7a ns bs k = .ok (l, k') →
+    ∀ (i : Nat) (n n' : NPat) (b : Bool), ns[i]? = some n → bs[i]? = some b → l[i]? = some n' →
+      skelInputs n'.inputs = (if b then (skelInputs n.inputs).reverse else skelInputs n.inputs) ∧
+      (b = true → n.inputs.length = 2) ∧ n' = { n with inputs := n'.inputs, opIsStr := false }
+  | [], _, _, l, _, h => by
+    intro i n n' b hn
+    simp at hn
+  | np :: rest, [], _, l, _, h => by
+    intro i n n' b _ hb
+    simp at hb
+  | np :: rest, b0 :: bs, k, l, k', h => by
+    unfold cloneNodes at h
+    split at h
+    · cases h
+    · next np1 k1 h1 =>
+      split at h
+      · cases h
+      · next l2 k2 h2 =>
+        cases h
+        intro i n n' b hn hb hn'
+        cases i with
+        | zero =>
+          simp at hn hb hn'
+          subst hn hb hn'
+          exact cloneNode_skel fix7a _ _ _ k k1 h1
+        | succ i =>
+          simp at hn hb hn'
+          exact cloneNodes_skel fix7a rest bs k1 l2 _ h2 i n n' b hn hb hn'
+
+theorem copyGraph_skel (fix7a : Bool) (p q : GPat) (m : List Bool) (hm : m.any id = true)
+    (h : copyGraph fix7a p m = .ok q) :
+    ∀ (i : Nat) (n n' : NPat) (b : Bool), p.nodes[i]? = some n → m[i]? = some b → q.nodes[i]? = some n' →
+      skelInputs n'.inputs = (if b then (skelInputs n.inputs).reverse else skelInputs n.inputs) ∧
+      (b = true → n.inputs.length = 2) ∧ n' = { n with inputs := n'.inputs, opIsStr := false } := by
+  unfold copyGraph at h
+  split at h
+  · next hx => simp [hm] at hx
+  · split at h
+    · cases h
+    · next nodes k hk =>
+      split at h
+      · cases h
+      · dsimp only at h
+        split at h
+        · cases h
+          exact cloneNodes_skel fix7a _ _ _ _ _ hk
+        · cases h
 
 end OV.C06
